@@ -90,6 +90,20 @@ func (f *fper) walk(v reflect.Value, path string, depth int) {
 		for i := 0; i < v.Len(); i++ {
 			f.walk(v.Index(i), fmt.Sprintf("%s[%d]", path, i), depth+1)
 		}
+		// the spare capacity behind the length belongs to the shared object too: an append to it by a user of the
+		// schema writes there
+		if v.Cap() > v.Len() && v.Cap()-v.Len() <= 64 {
+			full := v.Slice(0, v.Cap())
+			for i := v.Len(); i < v.Cap(); i++ {
+				e := full.Index(i)
+				switch e.Kind() {
+				case reflect.Ptr, reflect.Interface, reflect.Map, reflect.Slice, reflect.Func, reflect.Chan:
+					f.say(fmt.Sprintf("%s[+%d]", path, i), fmt.Sprint("nil=", e.IsNil()))
+				default:
+					f.say(fmt.Sprintf("%s[+%d]", path, i), fmt.Sprint("zero=", e.IsZero()))
+				}
+			}
+		}
 	case reflect.Array:
 		for i := 0; i < v.Len(); i++ {
 			f.walk(v.Index(i), fmt.Sprintf("%s[%d]", path, i), depth+1)
